@@ -1138,3 +1138,448 @@ Proof.
   - destruct (delivered_prefix id mt0 mtc stream n) as [tail T]. rewrite T.
     destruct (call_outcome_ext n1 n2 n3 (delivered id mt0 mtc (cut_at n stream)) tail H1 H2 H3) as [E|E]; [left; exact E|right; symmetry; exact E].
 Qed.
+
+(* ================================================================== *)
+(* Part 5: a success on hostile input is the denotation of a verified  *)
+(* well-formed message                                                 *)
+(* ================================================================== *)
+(* ---- the operations only ever shorten the input, and never touch the state field except
+        Begin / Close ---- *)
+Lemma recv_len s c s' : r_recv s = Some (c, s') -> (length (rs_in s') <= length (rs_in s))%nat /\ rs_state s' = rs_state s.
+Proof.
+  destruct s as [st e rem cur more inn ck got rel fin]. unfold r_recv. prj.
+  destruct (negb (e =? 0)); [intros H; injection H as _ <-; prj; split; [lia|reflexivity]|].
+  destruct inn as [|f rest]; [intros H; injection H as _ <-; prj; split; [lia|reflexivity]|].
+  destruct (match ck with Some c0 => Some c0 | None => ck_new (f_ctype f) end) as [c0|]; [|discriminate].
+  destruct (negb (ck_typecode c0 =? f_ctype f) && match ck with Some _ => true | None => false end).
+  { intros H; injection H as _ <-. unfold rset_err. prj. cbn [length]. split; [lia|reflexivity]. }
+  destruct (negb (bytes_eqb (f_ck f) (ck_sum (fold_left ck_add (f_chunks f) c0)))).
+  { intros H; injection H as _ <-. unfold rset_err. prj. cbn [length]. split; [lia|reflexivity]. }
+  destruct (f_chunks f) as [|ch chs].
+  { intros H; injection H as _ <-. unfold rset_err. prj. cbn [length]. split; [lia|reflexivity]. }
+  intros H; injection H as _ <-. prj. cbn [length]. split; [lia|reflexivity].
+Qed.
+
+Lemma read_loop_len : forall fuel n acc s bs c s', r_read_loop fuel n acc s = Some (bs, c, s') ->
+  (length (rs_in s') <= length (rs_in s))%nat /\ rs_state s' = rs_state s.
+Proof.
+  induction fuel as [|fuel IH]; intros n acc s bs c s'; cbn [r_read_loop]; prj;
+    set (k := Z.min n (zlen (rs_cur s))).
+  - destruct (n - k =? 0); [intros H; injection H as _ _ <-; prj; split; [lia|reflexivity]|].
+    destruct (rs_rem s); [|intros H; injection H as _ _ <-; prj; split; [lia|reflexivity]].
+    destruct (negb (rs_more s)); intros H; injection H as _ _ <-; prj; (split; [lia|reflexivity]).
+  - destruct (n - k =? 0); [intros H; injection H as _ _ <-; prj; split; [lia|reflexivity]|].
+    destruct (rs_rem s); [|intros H; injection H as _ _ <-; prj; split; [lia|reflexivity]].
+    destruct (negb (rs_more s)); [intros H; injection H as _ _ <-; prj; split; [lia|reflexivity]|].
+    match goal with |- match r_recv ?x with _ => _ end = _ -> _ => destruct (r_recv x) as [[c2 s2]|] eqn:R end; [|discriminate].
+    destruct (recv_len _ _ _ R) as [L2 S2]. prj_in L2. prj_in S2.
+    destruct (c2 =? 0).
+    + intros H. destruct (IH _ _ _ _ _ _ H) as [L' S']. split; [lia|congruence].
+    + intros H; injection H as _ _ <-. split; [exact L2|exact S2].
+Qed.
+
+Lemma read_len n s bs c s' : r_read n s = Some (bs, c, s') ->
+  (length (rs_in s') <= length (rs_in s))%nat /\ rs_state s' = rs_state s.
+Proof.
+  unfold r_read. destruct (negb (rs_err s =? 0)); [intros H; injection H as _ _ <-; split; [lia|reflexivity]|].
+  destruct (negb (is_reading (rs_state s))); [intros H; injection H as _ _ <-; unfold rset_err; prj; split; [lia|reflexivity]|].
+  apply read_loop_len.
+Qed.
+
+Lemma begin_len last s c s' : r_begin last s = Some (c, s') -> (length (rs_in s') <= length (rs_in s))%nat.
+Proof.
+  unfold r_begin. destruct (negb (rs_err s =? 0)); [intros H; injection H as _ <-; lia|].
+  destruct (is_reading (rs_state s)); [intros H; injection H as _ <-; unfold rset_err; prj; lia|].
+  destruct (rs_state s =? c_fragmentingReadComplete); [intros H; injection H as _ <-; unfold rset_err; prj; lia|].
+  destruct (rs_state s =? c_fragmentingReadStart).
+  - destruct (r_recv s) as [[c2 s2]|] eqn:R; [|discriminate]. destruct (recv_len _ _ _ R) as [L2 _].
+    destruct (c2 =? 0); intros H; injection H as _ <-; prj; exact L2.
+  - intros H; injection H as _ <-. prj. lia.
+Qed.
+
+Lemma close_next_len : forall fuel s c s', r_close_next fuel s = Some (c, s') -> (length (rs_in s') <= length (rs_in s))%nat.
+Proof.
+  induction fuel as [|fuel IH]; intros s c s'; cbn [r_close_next].
+  - destruct (rs_rem s); [|intros H; injection H as _ <-; prj; lia].
+    destruct (negb (rs_more s)); intros H; injection H as _ <-; unfold rset_err; prj; lia.
+  - destruct (rs_rem s); [|intros H; injection H as _ <-; prj; lia].
+    destruct (negb (rs_more s)); [intros H; injection H as _ <-; unfold rset_err; prj; lia|].
+    destruct (r_recv s) as [[c2 s2]|] eqn:R; [|discriminate]. destruct (recv_len _ _ _ R) as [L2 _].
+    destruct (negb (c2 =? 0)); [intros H; injection H as _ <-; exact L2|].
+    destruct (zlen (rs_cur s2) >? 0); [intros H; injection H as _ <-; unfold rset_err; prj; exact L2|].
+    intros H. pose proof (IH _ _ _ H). lia.
+Qed.
+
+Lemma close_len s c s' : r_close s = Some (c, s') -> (length (rs_in s') <= length (rs_in s))%nat.
+Proof.
+  unfold r_close. destruct (negb (rs_err s =? 0)); [intros H; injection H as _ <-; lia|].
+  destruct (negb (is_reading (rs_state s))); [intros H; injection H as _ <-; unfold rset_err; prj; lia|].
+  destruct (zlen (rs_cur s) >? 0); [intros H; injection H as _ <-; unfold rset_err; prj; lia|].
+  destruct (rs_state s =? c_fragmentingReadInLastArgument).
+  - destruct (rs_rem s); [|intros H; injection H as _ <-; unfold rset_err; prj; lia].
+    destruct (rs_more s); intros H; injection H as _ <-; unfold rset_err; prj; lia.
+  - intros H. apply close_next_len in H. prj_in H. exact H.
+Qed.
+
+Lemma readall_len bufsz : forall fuel acc s bs c s', r_readall fuel bufsz acc s = Some (bs, c, s') ->
+  (length (rs_in s') <= length (rs_in s))%nat /\ rs_state s' = rs_state s.
+Proof.
+  induction fuel as [|fuel IH]; intros acc s bs c s'; cbn [r_readall].
+  - intros H; injection H as _ _ <-. split; [lia|reflexivity].
+  - destruct (r_read bufsz s) as [[[bs1 c1] s1]|] eqn:R; [|discriminate]. destruct (read_len _ _ _ _ _ R) as [L1 S1].
+    destruct (c1 =? 0); [intros H; destruct (IH _ _ _ _ _ H) as [L' S']; split; [lia|congruence]|].
+    destruct (c1 =? 12); intros H; injection H as _ _ <-; (split; [exact L1|exact S1]).
+Qed.
+
+Lemma helper_len bufsz s bs c s' : r_helper_read bufsz s = Some (bs, c, s') -> (length (rs_in s') <= length (rs_in s))%nat.
+Proof.
+  unfold r_helper_read. destruct (r_readall _ bufsz [] s) as [[[bs1 c1] s1]|] eqn:R; [|discriminate].
+  destruct (readall_len _ _ _ _ _ _ _ R) as [L1 _].
+  destruct (negb (c1 =? 0)); [intros H; injection H as _ _ <-; exact L1|].
+  destruct (r_read 128 s1) as [[[ex c2] s2]|] eqn:R2; [|discriminate]. destruct (read_len _ _ _ _ _ R2) as [L2 _].
+  destruct (zlen ex >? 0); [intros H; injection H as _ _ <-; lia|].
+  destruct (negb (c2 =? 12) && negb (c2 =? 0)); [intros H; injection H as _ _ <-; lia|].
+  destruct (r_close s2) as [[c3 s3]|] eqn:R3; [|discriminate]. pose proof (close_len _ _ _ R3) as L3.
+  intros H; injection H as _ _ <-. lia.
+Qed.
+
+(* a successful helper read of the last argument leaves the reader Complete *)
+Lemma helper_last_complete bufsz s bs s' : r_helper_read bufsz s = Some (bs, 0, s') ->
+  rs_state s = c_fragmentingReadInLastArgument -> rs_state s' = c_fragmentingReadComplete.
+Proof.
+  unfold r_helper_read. destruct (r_readall _ bufsz [] s) as [[[bs1 c1] s1]|] eqn:R; [|discriminate].
+  destruct (readall_len _ _ _ _ _ _ _ R) as [_ S1].
+  destruct (negb (c1 =? 0)) eqn:E1; [intros H; injection H as _ Hc _; lia|].
+  destruct (r_read 128 s1) as [[[ex c2] s2]|] eqn:R2; [|discriminate]. destruct (read_len _ _ _ _ _ R2) as [_ S2].
+  destruct (zlen ex >? 0); [discriminate|].
+  destruct (negb (c2 =? 12) && negb (c2 =? 0)) eqn:E2; [intros H; injection H as _ Hc _; lia|].
+  destruct (r_close s2) as [[c3 s3]|] eqn:R3; [|discriminate]. intros H; injection H as _ -> <-. intros Hs.
+  assert (Hs2 : rs_state s2 = c_fragmentingReadInLastArgument) by congruence.
+  revert R3. unfold r_close. destruct (negb (rs_err s2 =? 0)) eqn:Ee; [intros H; injection H as Hc _; lia|].
+  destruct (negb (is_reading (rs_state s2))); [discriminate|]. destruct (zlen (rs_cur s2) >? 0); [discriminate|].
+  rewrite Hs2, Z.eqb_refl. destruct (rs_rem s2); [|discriminate]. destruct (rs_more s2); [discriminate|].
+  intros H; injection H as <-. reflexivity.
+Qed.
+
+(* ---- the converse of the extension lemmas: a run that leaves [post] untouched is a run
+        of the reader that was never given [post] ---- *)
+Lemma recv_head s f rest c s' : rs_err s = 0 -> rs_in s = f :: rest -> r_recv s = Some (c, s') -> rs_in s' = rest.
+Proof.
+  destruct s as [st e rem cur more inn ck got rel fin]. prj. intros -> ->. unfold r_recv. prj. cbn [Z.eqb negb].
+  destruct (match ck with Some c0 => Some c0 | None => ck_new (f_ctype f) end) as [c0|]; [|discriminate].
+  destruct (negb (ck_typecode c0 =? f_ctype f) && match ck with Some _ => true | None => false end).
+  { intros H; injection H as _ <-. reflexivity. }
+  destruct (negb (bytes_eqb (f_ck f) (ck_sum (fold_left ck_add (f_chunks f) c0)))).
+  { intros H; injection H as _ <-. reflexivity. }
+  destruct (f_chunks f); intros H; injection H as _ <-; reflexivity.
+Qed.
+
+Lemma recv_unext post s c sF : r_recv (ext post s) = Some (c, sF) -> (length post <= length (rs_in sF))%nat ->
+  exists sC, r_recv s = Some (c, sC) /\ sF = ext post sC.
+Proof.
+  intros H L. destruct (dec_in s) as [D|[He Hi]].
+  - rewrite (recv_ext post s D) in H. destruct (r_recv s) as [[c' sC]|]; [|discriminate]. cbn [lift2] in H.
+    injection H as <- <-. eauto.
+  - destruct post as [|f rest].
+    + destruct s as [st e rem cur more inn ck got rel fin]. prj_all. subst e inn. unfold ext, r_recv in *. prj_all.
+      cbn [app Z.eqb negb] in *. injection H as <- <-. eexists. split; [reflexivity|reflexivity].
+    + exfalso. assert (E : rs_in (ext (f :: rest) s) = f :: rest) by (unfold ext; prj; rewrite Hi; reflexivity).
+      pose proof (recv_head (ext (f :: rest) s) f rest c sF He E H) as X. rewrite X in L. cbn [length] in L. lia.
+Qed.
+
+Lemma begin_unext post last s c sF : r_begin last (ext post s) = Some (c, sF) -> (length post <= length (rs_in sF))%nat ->
+  exists sC, r_begin last s = Some (c, sC) /\ sF = ext post sC.
+Proof.
+  unfold r_begin. change (rs_err (ext post s)) with (rs_err s). change (rs_state (ext post s)) with (rs_state s).
+  destruct (negb (rs_err s =? 0)); [intros H _; injection H as <- <-; eauto|].
+  destruct (is_reading (rs_state s)); [intros H _; injection H as <- <-; eexists; split; [reflexivity|reflexivity]|].
+  destruct (rs_state s =? c_fragmentingReadComplete); [intros H _; injection H as <- <-; eexists; split; [reflexivity|reflexivity]|].
+  destruct (rs_state s =? c_fragmentingReadStart).
+  - destruct (r_recv (ext post s)) as [[c2 s2F]|] eqn:R; [|discriminate].
+    destruct (c2 =? 0) eqn:Ec.
+    + intros H L. injection H as <- <-. prj_in L. destruct (recv_unext post s c2 s2F R L) as (s2C & RC & ->).
+      rewrite RC, Ec. eexists. split; [reflexivity|reflexivity].
+    + intros H L. injection H as <- <-. destruct (recv_unext post s c2 s2F R L) as (s2C & RC & ->).
+      rewrite RC, Ec. eexists. split; [reflexivity|reflexivity].
+  - intros H _; injection H as <- <-. eexists. split; [reflexivity|reflexivity].
+Qed.
+
+Lemma read_loop_unext post : forall fuelC n acc s fuelF bs c sF,
+  (length (rs_in s) < fuelC)%nat -> (length (rs_in s ++ post) < fuelF)%nat ->
+  r_read_loop fuelF n acc (ext post s) = Some (bs, c, sF) -> (length post <= length (rs_in sF))%nat ->
+  exists sC, r_read_loop fuelC n acc s = Some (bs, c, sC) /\ sF = ext post sC.
+Proof.
+  induction fuelC as [|fuelC IH]; intros n acc s fuelF bs c sF HC HF; [lia|].
+  destruct fuelF as [|fuelF]; [lia|].
+  destruct s as [st e rem cur more inn ck got0 rel fin]. prj_all.
+  unfold ext at 1. prj. cbn [r_read_loop]. prj.
+  set (k := Z.min n (zlen cur)). set (got := firstn (Z.to_nat k) cur).
+  destruct (n - k =? 0); [intros H _; injection H as <- <- <-; eexists; split; [reflexivity|reflexivity]|].
+  destruct rem as [|rc rcs]; [|intros H _; injection H as <- <- <-; eexists; split; [reflexivity|reflexivity]].
+  destruct (negb more); [intros H _; injection H as <- <- <-; eexists; split; [reflexivity|reflexivity]|].
+  set (s1 := mkRst st e [] (skipn (Z.to_nat k) cur) more inn ck got0 rel fin).
+  change (mkRst st e [] (skipn (Z.to_nat k) cur) more (inn ++ post) ck got0 rel fin) with (ext post s1).
+  destruct (r_recv (ext post s1)) as [[c2 s2F]|] eqn:R; [|discriminate].
+  destruct (c2 =? 0) eqn:Ec.
+  - intros H L. destruct (read_loop_len _ _ _ _ _ _ _ H) as [L' _].
+    destruct (recv_unext post s1 c2 s2F R ltac:(lia)) as (s2C & RC & ->). rewrite RC, Ec.
+    assert (c2 = 0) by lia. subst c2. pose proof (recv_in_len _ _ RC) as Ln. unfold s1 in Ln. prj_in Ln.
+    apply (IH (n - k) (acc ++ got) s2C fuelF); [lia| |exact H|exact L].
+    rewrite app_length in *. lia.
+  - intros H L. injection H as <- <- <-. destruct (recv_unext post s1 c2 s2F R L) as (s2C & RC & ->). rewrite RC, Ec.
+    eexists. split; [reflexivity|reflexivity].
+Qed.
+
+Lemma read_unext post n s bs c sF : r_read n (ext post s) = Some (bs, c, sF) -> (length post <= length (rs_in sF))%nat ->
+  exists sC, r_read n s = Some (bs, c, sC) /\ sF = ext post sC.
+Proof.
+  unfold r_read. change (rs_err (ext post s)) with (rs_err s). change (rs_state (ext post s)) with (rs_state s).
+  destruct (negb (rs_err s =? 0)); [intros H _; injection H as <- <- <-; eauto|].
+  destruct (negb (is_reading (rs_state s))); [intros H _; injection H as <- <- <-; eexists; split; [reflexivity|reflexivity]|].
+  change (rs_in (ext post s)) with (rs_in s ++ post). apply read_loop_unext; lia.
+Qed.
+
+Lemma close_next_unext post : forall fuelC s fuelF c sF,
+  (length (rs_in s) < fuelC)%nat -> (length (rs_in s ++ post) < fuelF)%nat ->
+  r_close_next fuelF (ext post s) = Some (c, sF) -> (length post <= length (rs_in sF))%nat ->
+  exists sC, r_close_next fuelC s = Some (c, sC) /\ sF = ext post sC.
+Proof.
+  induction fuelC as [|fuelC IH]; intros s fuelF c sF HC HF; [lia|]. destruct fuelF as [|fuelF]; [lia|].
+  cbn [r_close_next]. change (rs_rem (ext post s)) with (rs_rem s). change (rs_more (ext post s)) with (rs_more s).
+  destruct (rs_rem s); [|intros H _; injection H as <- <-; eexists; split; [reflexivity|reflexivity]].
+  destruct (negb (rs_more s)); [intros H _; injection H as <- <-; eexists; split; [reflexivity|reflexivity]|].
+  destruct (r_recv (ext post s)) as [[c2 s2F]|] eqn:R; [|discriminate].
+  destruct (negb (c2 =? 0)) eqn:Ec.
+  { intros H L. injection H as <- <-. destruct (recv_unext post s c2 s2F R L) as (s2C & RC & ->). rewrite RC, Ec.
+    eexists. split; [reflexivity|reflexivity]. }
+  destruct (zlen (rs_cur s2F) >? 0) eqn:Ez.
+  { intros H L. injection H as <- <-. unfold rset_err in L. prj_in L.
+    destruct (recv_unext post s c2 s2F R L) as (s2C & RC & ->). rewrite RC, Ec. change (rs_cur (ext post s2C)) with (rs_cur s2C) in Ez.
+    rewrite Ez. eexists. split; [reflexivity|reflexivity]. }
+  intros H L. pose proof (close_next_len _ _ _ _ H) as L'.
+  destruct (recv_unext post s c2 s2F R ltac:(lia)) as (s2C & RC & ->). rewrite RC, Ec.
+  change (rs_cur (ext post s2C)) with (rs_cur s2C) in Ez. rewrite Ez.
+  assert (c2 = 0) by lia. subst c2. pose proof (recv_in_len _ _ RC) as Ln.
+  apply (IH s2C fuelF); [lia| |exact H|exact L]. change (rs_in (ext post s2C)) with (rs_in s2C ++ post) in *. rewrite app_length in *. lia.
+Qed.
+
+Lemma close_unext post s c sF : r_close (ext post s) = Some (c, sF) -> (length post <= length (rs_in sF))%nat ->
+  exists sC, r_close s = Some (c, sC) /\ sF = ext post sC.
+Proof.
+  unfold r_close. change (rs_err (ext post s)) with (rs_err s). change (rs_state (ext post s)) with (rs_state s).
+  change (rs_cur (ext post s)) with (rs_cur s). change (rs_rem (ext post s)) with (rs_rem s).
+  change (rs_more (ext post s)) with (rs_more s).
+  destruct (negb (rs_err s =? 0)); [intros H _; injection H as <- <-; eauto|].
+  destruct (negb (is_reading (rs_state s))); [intros H _; injection H as <- <-; eexists; split; [reflexivity|reflexivity]|].
+  destruct (zlen (rs_cur s) >? 0); [intros H _; injection H as <- <-; eexists; split; [reflexivity|reflexivity]|].
+  destruct (rs_state s =? c_fragmentingReadInLastArgument).
+  - destruct (rs_rem s); [|intros H _; injection H as <- <-; eexists; split; [reflexivity|reflexivity]].
+    destruct (rs_more s); intros H _; injection H as <- <-; eexists; (split; [reflexivity|reflexivity]).
+  - change (rs_in (ext post s)) with (rs_in s ++ post). change (rs_ck (ext post s)) with (rs_ck s).
+    change (rs_got (ext post s)) with (rs_got s). change (rs_rel (ext post s)) with (rs_rel s).
+    change (rs_fin (ext post s)) with (rs_fin s).
+    set (s1 := mkRst c_fragmentingReadWaitingForArgument 0 (rs_rem s) (rs_cur s) (rs_more s) (rs_in s) (rs_ck s)
+                     (rs_got s) (rs_rel s) (rs_fin s)).
+    change (mkRst c_fragmentingReadWaitingForArgument 0 (rs_rem s) (rs_cur s) (rs_more s) (rs_in s ++ post) (rs_ck s)
+                  (rs_got s) (rs_rel s) (rs_fin s)) with (ext post s1).
+    apply close_next_unext; [unfold s1; prj; lia|]. change (rs_in (ext post s1)) with (rs_in s1 ++ post). unfold s1; prj. lia.
+Qed.
+
+Lemma readall_unext post bufsz : 0 < bufsz -> forall fuelC acc s fuelF bs c sF,
+  total_bytes s < Z.of_nat fuelC -> total_bytes (ext post s) < Z.of_nat fuelF ->
+  r_readall fuelF bufsz acc (ext post s) = Some (bs, c, sF) -> (length post <= length (rs_in sF))%nat ->
+  exists sC, r_readall fuelC bufsz acc s = Some (bs, c, sC) /\ sF = ext post sC.
+Proof.
+  intros Hb. induction fuelC as [|fuelC IH]; intros acc s fuelF bs c sF HC HF; [pose proof (total_bytes_nonneg s); lia|].
+  destruct fuelF as [|fuelF]; [pose proof (total_bytes_nonneg (ext post s)); lia|].
+  cbn [r_readall]. destruct (r_read bufsz (ext post s)) as [[[bs1 c1] s1F]|] eqn:R; [|discriminate].
+  destruct (c1 =? 0) eqn:Ec.
+  - intros H L. destruct (readall_len _ _ _ _ _ _ _ H) as [L' _].
+    destruct (read_unext post bufsz s bs1 c1 s1F R ltac:(lia)) as (s1C & RC & ->). rewrite RC, Ec.
+    assert (c1 = 0) by lia. subst c1. pose proof (read_consumes bufsz s bs1 s1C ltac:(lia) RC) as T.
+    apply (IH (acc ++ bs1) s1C fuelF); [lia| |exact H|exact L]. rewrite total_ext in *. lia.
+  - destruct (c1 =? 12) eqn:E12; intros H L; injection H as <- <- <-;
+      destruct (read_unext post bufsz s bs1 c1 s1F R L) as (s1C & RC & ->); rewrite RC, Ec, E12;
+      eexists; (split; [reflexivity|reflexivity]).
+Qed.
+
+Lemma helper_unext post bufsz s bs c sF : 0 < bufsz ->
+  r_helper_read bufsz (ext post s) = Some (bs, c, sF) -> (length post <= length (rs_in sF))%nat ->
+  exists sC, r_helper_read bufsz s = Some (bs, c, sC) /\ sF = ext post sC.
+Proof.
+  intros Hb. unfold r_helper_read.
+  destruct (r_readall (S (Z.to_nat (total_bytes (ext post s))) + length (rs_in (ext post s)) + 2) bufsz [] (ext post s))
+    as [[[bs1 c1] s1F]|] eqn:R; [|discriminate].
+  assert (U1 : (length post <= length (rs_in s1F))%nat ->
+               exists s1C, r_readall (S (Z.to_nat (total_bytes s)) + length (rs_in s) + 2) bufsz [] s = Some (bs1, c1, s1C) /\ s1F = ext post s1C).
+  { intros L1. apply (readall_unext post bufsz Hb (S (Z.to_nat (total_bytes s)) + length (rs_in s) + 2) [] s
+             (S (Z.to_nat (total_bytes (ext post s))) + length (rs_in (ext post s)) + 2) bs1 c1 s1F); [| |exact R|exact L1].
+    - pose proof (total_bytes_nonneg s). lia.
+    - pose proof (total_bytes_nonneg (ext post s)). lia. }
+  destruct (negb (c1 =? 0)) eqn:E1.
+  { intros H L. injection H as <- <- <-. destruct (U1 L) as (s1C & RC & ->). rewrite RC, E1. eexists. split; [reflexivity|reflexivity]. }
+  destruct (r_read 128 s1F) as [[[ex c2] s2F]|] eqn:R2; [|discriminate].
+  destruct (read_len _ _ _ _ _ R2) as [L2 _].
+  destruct (zlen ex >? 0) eqn:Ez.
+  { intros H L. injection H as <- <- <-. destruct (U1 ltac:(lia)) as (s1C & RC & ->). rewrite RC, E1.
+    destruct (read_unext post 128 s1C ex c2 s2F R2 L) as (s2C & RC2 & ->). rewrite RC2, Ez. eexists. split; [reflexivity|reflexivity]. }
+  destruct (negb (c2 =? 12) && negb (c2 =? 0)) eqn:E2.
+  { intros H L. injection H as <- <- <-. destruct (U1 ltac:(lia)) as (s1C & RC & ->). rewrite RC, E1.
+    destruct (read_unext post 128 s1C ex c2 s2F R2 L) as (s2C & RC2 & ->). rewrite RC2, Ez, E2. eexists. split; [reflexivity|reflexivity]. }
+  destruct (r_close s2F) as [[c3 s3F]|] eqn:R3; [|discriminate]. pose proof (close_len _ _ _ R3) as L3.
+  intros H L. injection H as <- <- <-. destruct (U1 ltac:(lia)) as (s1C & RC & ->). rewrite RC, E1.
+  destruct (read_unext post 128 s1C ex c2 s2F R2 ltac:(lia)) as (s2C & RC2 & ->). rewrite RC2, Ez, E2.
+  destruct (close_unext post s2C c3 s3F R3 L) as (s3C & RC3 & ->). rewrite RC3. eexists. split; [reflexivity|reflexivity].
+Qed.
+
+(* ---- on a well-formed, checksum-valid message: whatever its number of arguments, helper
+        reads that succeed return its arguments in order (the arity check is Close's) ---- *)
+Lemma helper_gen N last bufsz st h t :
+  0 < bufsz -> Inv N st h t -> rs_state st = arg_state last ->
+  exists cc st', r_helper_read bufsz st = Some (h, cc, st') /\
+    ((cc = 0 /\ (if last then t = [] /\ r_final N st'
+                 else exists a' t', t = a' :: t' /\ Inv N st' a' t' /\ ready st'))
+     \/ (is_err cc /\ rs_err st' = cc)).
+Proof.
+  intros Hb I Hs.
+  assert (Hr : is_reading (rs_state st) = true) by (rewrite Hs; apply is_reading_arg_state).
+  unfold r_helper_read.
+  destruct (readall_ok N bufsz Hb (S (Z.to_nat (total_bytes st)) + length (rs_in st) + 2) [] st h t I Hr)
+    as (st1 & RA & I1 & E1 & Hs1).
+  { pose proof (total_bytes_ge _ _ _ _ I). lia. }
+  rewrite RA. cbn [app Z.eqb negb].
+  assert (Hr1 : is_reading (rs_state st1) = true) by congruence.
+  destruct (read_ok N st1 [] t 128 I1 Hr1 ltac:(lia)) as (bs & c & st2 & R & (h2 & Hh & I2 & Hs2 & _ & Hc)).
+  rewrite R. symmetry in Hh. apply app_eq_nil in Hh. destruct Hh as [-> ->].
+  destruct Hc as [[_ Hz]|(-> & _ & _ & E2)]; [cbn in Hz; lia|].
+  change (zlen (@nil Z) >? 0) with false. cbn [Z.eqb negb andb].
+  assert (Hr2 : is_reading (rs_state st2) = true) by congruence.
+  destruct (close_ok N st2 [] t I2 Hr2) as (cc & st3 & C & P & _).
+  rewrite Hs2, Hs1, Hs, arg_state_last in P. rewrite C. exists cc, st3. split; [reflexivity|].
+  destruct P as [(P1 & _ & P3)|P]; [left|right; exact P]. split; [exact P1|].
+  destruct last.
+  - exact P3.
+  - destruct P3 as (a' & t' & P4 & P5 & P6 & _). exists a', t'. split; [exact P4|]. split; [exact P5|]. right. exact P6.
+Qed.
+
+Lemma init_inv_gen fs ck0 :
+  wf fs -> ck_new (first_ctype fs) = Some ck0 -> ck_chain ck0 fs ->
+  exists h t, denote (chunks_of fs) = h :: t /\ Inv (zlen fs) (r_init fs) h t /\ ready (r_init fs).
+Proof.
+  intros [capf [Hne Hfr]] Hck Hchain. rewrite denote_split. eexists _, _. split; [reflexivity|]. split.
+  - constructor; unfold r_init; prj.
+    + reflexivity.
+    + rewrite split_rest. unfold ev_tail. prj. cbn [map app]. unfold evs_in.
+      destruct (split_evs (flat_map frag_events (chunks_of fs))); reflexivity.
+    + exact (frames_ok_from_fr_ok _ _ _ Hfr).
+    + split; [intros _; exact Hne|reflexivity].
+    + exists ck0. prj. split; assumption.
+    + lia.
+  - left. unfold r_init. prj. repeat split; reflexivity.
+Qed.
+
+(* what a success of the three helper reads consists of *)
+Lemma call_outcome_inv n1 n2 n3 fs args : call_outcome n1 n2 n3 fs = OOk args ->
+  exists a1 a2 a3 s0 s1 s1' s2 s2' s3,
+    r_begin false (r_init fs) = Some (0, s0) /\ r_helper_read n1 s0 = Some (a1, 0, s1) /\
+    r_begin false s1 = Some (0, s1') /\ r_helper_read n2 s1' = Some (a2, 0, s2) /\
+    r_begin true s2 = Some (0, s2') /\ r_helper_read n3 s2' = Some (a3, 0, s3) /\ args = [a1; a2; a3].
+Proof.
+  unfold call_outcome.
+  destruct (r_begin false (r_init fs)) as [[cb1 s0]|] eqn:Q1; [|discriminate].
+  destruct (negb (cb1 =? 0)) eqn:E1; [discriminate|].
+  destruct (r_helper_read n1 s0) as [[[a1 c1] s1]|] eqn:Q2; [|discriminate].
+  destruct (negb (c1 =? 0)) eqn:E2; [discriminate|].
+  destruct (r_begin false s1) as [[cb2 s1']|] eqn:Q3; [|discriminate].
+  destruct (negb (cb2 =? 0)) eqn:E3; [discriminate|].
+  destruct (r_helper_read n2 s1') as [[[a2 c2] s2]|] eqn:Q4; [|discriminate].
+  destruct (negb (c2 =? 0)) eqn:E4; [discriminate|].
+  destruct (r_begin true s2) as [[cb3 s2']|] eqn:Q5; [|discriminate].
+  destruct (negb (cb3 =? 0)) eqn:E5; [discriminate|].
+  destruct (r_helper_read n3 s2') as [[[a3 c3] s3]|] eqn:Q6; [|discriminate].
+  destruct (negb (c3 =? 0)) eqn:E6; [discriminate|].
+  intros H; injection H as <-.
+  assert (cb1 = 0) by lia. assert (c1 = 0) by lia. assert (cb2 = 0) by lia. assert (c2 = 0) by lia.
+  assert (cb3 = 0) by lia. assert (c3 = 0) by lia. subst.
+  exists a1, a2, a3, s0, s1, s1', s2, s2', s3. repeat (split; [first [assumption|reflexivity]|]). reflexivity.
+Qed.
+
+(* on a well-formed message a success is its denotation *)
+Lemma wf_outcome_denote n1 n2 n3 fs ck0 args : 0 < n1 -> 0 < n2 -> 0 < n3 ->
+  wf fs -> ck_new (first_ctype fs) = Some ck0 -> ck_chain ck0 fs ->
+  call_outcome n1 n2 n3 fs = OOk args -> args = denote (chunks_of fs).
+Proof.
+  intros H1 H2 H3 Hwf Hck Hch Hout.
+  destruct (call_outcome_inv _ _ _ _ _ Hout) as (a1 & a2 & a3 & s0 & s1 & s1' & s2 & s2' & s3 & B1 & R1 & B2 & R2 & B3 & R3 & ->).
+  destruct (init_inv_gen fs ck0 Hwf Hck Hch) as (h & t & Hden & I0 & Rd0). rewrite Hden.
+  destruct (begin_ok _ _ _ _ false I0 Rd0) as (x0 & B1' & I0' & S0 & _). rewrite B1 in B1'. injection B1' as <-.
+  destruct (helper_gen _ false n1 s0 h t H1 I0' S0) as (cc1 & x1 & R1' & P1). rewrite R1 in R1'. injection R1' as <- <- <-.
+  destruct P1 as [(_ & a' & t' & -> & I1 & Rd1)|[[E _] _]]; [|congruence].
+  destruct (begin_ok _ _ _ _ false I1 Rd1) as (x1' & B2' & I1' & S1 & _). rewrite B2 in B2'. injection B2' as <-.
+  destruct (helper_gen _ false n2 s1' a' t' H2 I1' S1) as (cc2 & x2 & R2' & P2). rewrite R2 in R2'. injection R2' as <- <- <-.
+  destruct P2 as [(_ & a'' & t'' & -> & I2 & Rd2)|[[E _] _]]; [|congruence].
+  destruct (begin_ok _ _ _ _ true I2 Rd2) as (x2' & B3' & I2' & S2 & _). rewrite B3 in B3'. injection B3' as <-.
+  destruct (helper_gen _ true n3 s2' a'' t'' H3 I2' S2) as (cc3 & x3 & R3' & P3). rewrite R3 in R3'. injection R3' as <- <- <-.
+  destruct P3 as [(_ & -> & _)|[[E _] _]]; [|congruence]. reflexivity.
+Qed.
+
+(* SUCCESS ON HOSTILE INPUT.  For ANY fragment list that passed the parser: if the caller's
+   three helper reads all succeed, then the fragments split into a consumed part [pre] and an
+   untouched rest, [pre] is a well-formed message (every fragment has a chunk, more-flags
+   exactly on all but the last) each of whose checksums verified, and the three arguments
+   returned are exactly the arguments [pre] denotes by the protocol document.  No other
+   success exists. *)
+Theorem hostile_success_denote : forall n1 n2 n3 fs args, 0 < n1 -> 0 < n2 -> 0 < n3 ->
+  Forall frag_parsed fs -> call_outcome n1 n2 n3 fs = OOk args ->
+  exists pre post c0, fs = pre ++ post /\ wf pre /\ ck_new (first_ctype pre) = Some c0 /\ ck_chain c0 pre /\
+    f_more (last pre dfrag) = false /\ args = denote (chunks_of pre).
+Proof.
+  intros n1 n2 n3 fs args H1 H2 H3 Hp Hout.
+  destruct (call_outcome_inv _ _ _ _ _ Hout) as (a1 & a2 & a3 & s0 & s1 & s1' & s2 & s2' & s3 & B1 & R1 & B2 & R2 & B3 & R3 & Ea).
+  (* the invariant along the run; the final state is Complete *)
+  pose proof (begin_J fs _ _ _ _ Hp (J_init fs) B1) as J0. pose proof (helper_J fs _ _ _ _ _ Hp J0 R1) as J1.
+  pose proof (begin_J fs _ _ _ _ Hp J1 B2) as J1'. pose proof (helper_J fs _ _ _ _ _ Hp J1' R2) as J2.
+  pose proof (begin_J fs _ _ _ _ Hp J2 B3) as J2'. pose proof (helper_J fs _ _ _ _ _ Hp J2' R3) as J3.
+  assert (S2' : rs_state s2' = c_fragmentingReadInLastArgument).
+  { pose proof (hs_init fs Hp) as Hs.
+    assert (Hc : ck_safe s2).
+    { destruct (step_H (RBegin false) _ I Hs) as (? & ? & ? & Q0 & Hs0 & _). cbn [r_step] in Q0. rewrite B1 in Q0. injection Q0 as _ _ <-.
+      destruct (step_H (RHelper n1) _ H1 Hs0) as (? & ? & ? & Q1 & Hs1 & _). cbn [r_step] in Q1. rewrite R1 in Q1. injection Q1 as _ _ <-.
+      destruct (step_H (RBegin false) _ I Hs1) as (? & ? & ? & Q2 & Hs2 & _). cbn [r_step] in Q2. rewrite B2 in Q2. injection Q2 as _ _ <-.
+      destruct (step_H (RHelper n2) _ H2 Hs2) as (? & ? & ? & Q3 & Hs3 & _). cbn [r_step] in Q3. rewrite R2 in Q3. injection Q3 as _ _ <-.
+      exact (proj1 Hs3). }
+    destruct (begin_H true s2 Hc) as (c & st' & Q & _ & _ & _ & Pe & P0). rewrite B3 in Q. injection Q as <- <-.
+    destruct (Z.eq_dec (rs_err s2) 0) as [He|He]; [|destruct (Pe He) as [E _]; congruence].
+    destruct (P0 He) as [(_ & _ & S)|(E & _)]; [exact S|congruence]. }
+  pose proof (helper_last_complete _ _ _ _ R3 S2') as S3.
+  destruct (J_complete fs s3 J3 S3) as (pre & A & _ & Hwf & (c0 & N0 & Ch) & Hl).
+  set (post := rs_in s3) in *.
+  exists pre, post, c0. split; [exact A|]. split; [exact Hwf|]. split; [exact N0|]. split; [exact Ch|]. split; [exact Hl|].
+  (* the same run on [pre] alone *)
+  pose proof (helper_len _ _ _ _ _ R3) as L3. pose proof (begin_len _ _ _ _ B3) as L2'.
+  pose proof (helper_len _ _ _ _ _ R2) as L2. pose proof (begin_len _ _ _ _ B2) as L1'.
+  pose proof (helper_len _ _ _ _ _ R1) as L1. fold post in L3.
+  assert (E0 : r_init fs = ext post (r_init pre)) by (rewrite A; reflexivity).
+  rewrite E0 in B1.
+  destruct (begin_unext post false _ _ _ B1 ltac:(lia)) as (c0' & B1C & ->).
+  destruct (helper_unext post n1 _ _ _ _ H1 R1 ltac:(lia)) as (c1' & R1C & ->).
+  destruct (begin_unext post false _ _ _ B2 ltac:(lia)) as (c1'' & B2C & ->).
+  destruct (helper_unext post n2 _ _ _ _ H2 R2 ltac:(lia)) as (c2' & R2C & ->).
+  destruct (begin_unext post true _ _ _ B3 ltac:(lia)) as (c2'' & B3C & ->).
+  destruct (helper_unext post n3 _ _ _ _ H3 R3 ltac:(unfold post; lia)) as (c3' & R3C & E3).
+  assert (OutC : call_outcome n1 n2 n3 pre = OOk args).
+  { unfold call_outcome. rewrite B1C. cbn [Z.eqb negb]. rewrite R1C. cbn [Z.eqb negb]. rewrite B2C. cbn [Z.eqb negb].
+    rewrite R2C. cbn [Z.eqb negb]. rewrite B3C. cbn [Z.eqb negb]. rewrite R3C. cbn [Z.eqb negb]. rewrite Ea. reflexivity. }
+  exact (wf_outcome_denote n1 n2 n3 pre c0 args H1 H2 H3 Hwf N0 Ch OutC).
+Qed.
+
+(* ... and for arbitrary peer bytes: the only successes of the receiving side of a call are the
+   denotations of checksum-verified well-formed messages found in the stream *)
+Theorem hostile_stream_success : forall id mt0 mtc n1 n2 n3 stream args, 0 < n1 -> 0 < n2 -> 0 < n3 ->
+  bytes_ok stream = true -> recv_outcome id mt0 mtc n1 n2 n3 stream = OOk args ->
+  exists pre post c0, delivered id mt0 mtc stream = pre ++ post /\ wf pre /\ ck_new (first_ctype pre) = Some c0 /\
+    ck_chain c0 pre /\ f_more (last pre dfrag) = false /\ args = denote (chunks_of pre).
+Proof.
+  intros id mt0 mtc n1 n2 n3 stream args H1 H2 H3 Hb Hout. rewrite recv_outcome_delivered in Hout.
+  exact (hostile_success_denote n1 n2 n3 _ args H1 H2 H3 (delivered_parsed id mt0 mtc stream Hb) Hout).
+Qed.
